@@ -30,6 +30,12 @@ func NewRawHTTPResponder(writer io.Writer) *RawHTTPResponder {
 	}
 }
 
+// Marks the response as the answer to a HEAD request: whatever is written, error answers included,
+// goes out without a body. A body after a HEAD answer would be read as the start of the next response.
+func (c *RawHTTPResponder) AnswersHead() {
+	c.response.Request = &http.Request{Method: http.MethodHead}
+}
+
 func (c *RawHTTPResponder) parseAndSetContentLength() error {
 	header := c.response.Header
 
